@@ -160,6 +160,14 @@ def run_component(prop, tier, replay, C):
         cov["traces_validated_against_impl"] += wcov["traces_validated_against_impl"]
         broken += wbroken
         violations += wviol
+    if prop == "C17" and not broken and (not replay or os.path.basename(replay).startswith("C17-drop-")):
+        # "dropping reads never changes what any cache operation returns": one script, reads dropped vs every read recorded,
+        # the clock moving inside the operations (DropHist.tla)
+        dn, dviol, dbroken = drop_half(prop, tier, replay)
+        cov["drop_differential_scripts"] = dn
+        cov["traces_validated_against_impl"] += dn
+        broken += dbroken
+        violations += dviol
     if prop == "C16" and not replay and not broken:
         # cache level: when the write buffer is full the writer runs maintenance itself and its own event must still reach
         # the policies (afterWriteTask); small buffer + foreign mutex holder, audited by WRAudit.tla
@@ -186,6 +194,41 @@ def run_component(prop, tier, replay, C):
             vlib.log("  %s: %s" % (x["pred"], x["detail"][:400]))
         return 1
     return 0
+
+
+def drop_half(prop, tier, replay=None):
+    seed = vlib.seed()
+    quick = tier == "quick"
+    if replay:
+        with open(replay) as f:
+            scs = json.load(f)
+    else:
+        # lifetimes of a few read gaps, so that entries are mostly alive and now and then read close to their deadline
+        scs = [{"seed": seed * 1000 + j, "nkeys": 2 + j % 4, "ttl": (2 + j % 4) * 2 * (1 + (j // 4) % 3), "delta": 2 + (j // 3) % 2, "nops": 600 if quick else 1500,
+                "sized": j % 2} for j in range(24 if quick else 240)]
+        for j, sc in enumerate(scs):
+            if j % 2 == 0:
+                sc["ttl"] = 18 * sc["delta"] - 1     # the scripts with the "seventeenth read" motif
+    with vlib.scratch("verif-drop-") as work:
+        obin = vlib.build_test_binary(work, "otter")
+        inp, outp, dv = (os.path.join(work, x) for x in ("drop.in.json", "drop.out.ndjson", "drop.dev.json"))
+        with open(inp, "w") as f:
+            json.dump(scs, f)
+        rc, out = vlib.run_test_binary(obin, "TestVerifDrop", {"VERIF_IN": inp, "VERIF_OUT": outp}, timeout=900)
+        if rc != 0:
+            return 0, [], ["drop-differential driver failed:\n" + out[-2000:]]
+        t = vlib.run_tlc(work, "DropHist", os.path.join(vlib.SPEC, "DropHist.cfg"), workers=1, timeout=600, heap="3g",
+                         env_extra={"VERIF_TRACE": outp, "VERIF_DEVOUT": dv})
+        if not vlib.tlc_ok(t) or not os.path.exists(dv):
+            return 0, [], ["DropHist did not complete:\n" + t["out"][-2500:]]
+        with open(dv) as f:
+            d = json.load(f)
+    viol = []
+    for x in d["devs"]:
+        sc = scs[x["rec"] - 1]
+        path = vlib.save_replay(prop, "drop-%d" % sc["seed"], [sc])
+        viol.append((x, sc, path))
+    return d["n"], viol, []
 
 
 # ------------------------------------------------------------------ C16 MPSC
